@@ -265,7 +265,13 @@ def u_subgroup_check(ctx):
     fv = get_function(ctx.prog, q)
 
     def body(path):
-        grp = GroupCtx("E", "proj")
+        # the argument is a point of E(F_p) (coordinates FQ) or of E'(F_p2) (coordinates FQ2)
+        which = path.choose(2, "group")
+        path.sig[-1] = "P in " + ("E(Fp)" if which == 0 else "E'(Fp2)")
+        it0 = mk_interp(ctx, q)
+        fmod = it0.prog.load("py_ecc.fields")
+        ccls = it0.module_value(fmod, "optimized_bls12_381_FQ" if which == 0 else "optimized_bls12_381_FQ2")
+        grp = GroupCtx("E", "proj", coord_cls=ccls)
         P = grp.atom("P")
         mc = MulContract(grp, q)
         cons = {f"{OPT_BLS}.multiply": mc, f"{OPT_BLS}.is_inf": GOp(grp, "is_inf", q)}
